@@ -107,10 +107,6 @@ def r02_3_spill(ctx):
     ctx.require_min("R02.3", 100)
 
 
-def run(ctx):
-    r02_3_spill(ctx)
-    return "Bounded partial evaluation of the spill/restore builder pushed through an abstract stack machine; sibling agreement of the 'callee leaves a value' predicate; argument/frame index relations; recursion guards."
-
 
 # ------------------------------------------------------------------------------------------
 # R02.1 / R02.2: symbolic evaluation of SubroutineEval.evaluate / __proto on abstract subroutines
@@ -412,11 +408,79 @@ def r02_4_recursion_guards(ctx):
     ctx.require_min("R02.4", 7)
 
 
+def _tealtype_sym():
+    return Sym("TealType", attrs={k: f"TealType.{k}" for k in ("none", "uint64", "bytes", "anytype")})
+
+
+def ref_types_match(a: str, b: str) -> bool:
+    """reference: `none` matches only `none`; `anytype` matches every value type; otherwise equality"""
+    if (a == "none") != (b == "none"):
+        return False
+    if a == "none":
+        return True
+    return a == "anytype" or b == "anytype" or a == b
+
+
+def r02_5_return(ctx):
+    ctx.rule("R02.5", "Return lowering decision table: inside a routine `retsub` with exactly the declared value (none: no value allowed; typed: a value of a matching type required), in the main program `return` with a uint64-compatible value; anything else is refused with TealCompileError")
+    c = ctx.model.find_class("Return", "pyteal.ast.return_")
+    teal = q.need(c.methods.get("__teal__"), "Return.__teal__ vanished")
+    tm = ctx.model.find_func("types_match", "pyteal.types")
+    ctx.analysed(teal.fq, tm.fq)
+    TT = _tealtype_sym()
+    OpS = _op_sym(ctx.model)
+    types = ["none", "uint64", "bytes", "anytype"]
+    # the type-compatibility relation itself
+    for a in types:
+        for b in types:
+            val, _me = run_function(tm.node, {"type1": TT.attrs[a], "type2": TT.attrs[b]}, lambda e, me: TT if u(e) == "TealType" else (_ for _ in ()).throw(Unknown()), tm.fq)
+            ctx.check(bool(val) == ref_types_match(a, b), "R02.5", f"types_match[{a},{b}]", f"types_match({a}, {b}) = {val}; the reference relation says {ref_types_match(a, b)}", tm.where, fact={"value": bool(val)})
+    for where_ in ("main", "none", "uint64", "bytes", "anytype"):
+        for vt in (None, "uint64", "bytes", "anytype", "none"):
+            sub = None if where_ == "main" else Sym("current", attrs={"return_type": TT.attrs[where_]})
+            value = None if vt is None else Sym("value", methods={"type_of": lambda vt=vt: TT.attrs[vt]})
+            selfs = Sym("self", attrs={"value": value})
+            options = Sym("options", attrs={"currentSubroutine": sub, "version": 10})
+
+            def oracle(e, me):
+                t = u(e)
+                if t == "TealType":
+                    return TT
+                if t == "Op":
+                    return OpS
+                if isinstance(e, ast.Call) and u(e.func) == "verifyProgramVersion":
+                    return None
+                raise Unknown()
+
+            construct = f"Return[{where_},value={vt}]"
+            if where_ == "main":
+                legal = vt is not None and ref_types_match(vt, "uint64")
+                want_op, want_args = "return_", 1
+            elif where_ == "none":
+                legal = vt is None
+                want_op, want_args = "retsub", 0
+            else:
+                legal = vt is not None and ref_types_match(vt, where_)
+                want_op, want_args = "retsub", 1
+            try:
+                val, me = run_function(teal.node, {"self": selfs, "options": options}, oracle, teal.fq, permissive=True, resolver=lambda nm: tm.node if nm == "types_match" else None)
+            except Raised as r:
+                ctx.check((not legal) and "TealCompileError" in r.exc_text, "R02.5", construct, f"refused with {r.exc_text[:60]} although this Return is legal" if legal else f"refused with {r.exc_text[:60]} instead of TealCompileError", teal.where, fact={"outcome": "raises " + r.exc_text[:40]})
+                continue
+            if not legal:
+                ctx.bad("R02.5", construct, f"an illegal Return ({'no value' if vt is None else 'value of type ' + vt} {'in the main program' if where_ == 'main' else 'in a routine declared ' + where_}) is accepted and lowered to {_strip(val)}", teal.where)
+                continue
+            ok = isinstance(val, Rec) and val.is_call("FromOp") and len(val.args) == 2 + want_args and isinstance(val.args[1], OpVal) and val.args[1].op == want_op and (want_args == 0 or val.args[2] is value)
+            ctx.check(ok, "R02.5", construct, f"lowered to {_strip(val)}; expected FromOp(options, {want_op}{', value' if want_args else ''})", teal.where, fact={"lowered": _strip(val)})
+    ctx.require_min("R02.5", 40)
+
+
 def run(ctx):  # noqa: F811
     r02_3_spill(ctx)
     r02_2_convention(ctx)
     r02_1_call_site(ctx)
     r02_4_recursion_guards(ctx)
+    r02_5_return(ctx)
     return (
         "Bounded partial evaluation of the spill/restore builder pushed through an abstract stack machine (all strategies x arities x caller/callee kinds); "
         "abstract evaluation of SubroutineEval.evaluate/__proto over parameter-kind shapes in both conventions (argument binding, frame indices, proto, ABI output cell, deferred load); "
